@@ -138,7 +138,9 @@ def run(res, tier, seed):
     stats["zone_cases"] = len(zone)
     mism, impl, st = corr.run_both("pool", cases, "C13", allmism=True)
     nops = sum(len(l) for _, l in cases)
-    res.obligation("correspondence: Go mapping functions = model on %d ops over %d geometries" % (nops, len(cases)), not mism)
+    res.obligation("correspondence: Go mapping functions = model on %d ops over %d geometries (outside the recorded K1 domain: IPv4-mapped addresses in IPv6 pools)"
+                   % (nops, len(cases)), not [m for m in mism if not classify(m)])
+    res.coverage["known_finding_mismatches"] = len([m for m in mism if classify(m)])
     distinct = len({(c, l) for c, ls in cases for l in ls[1:]})
     res.coverage.update({
         "evaluations": nops, "distinct_nontrivial": distinct,
@@ -153,7 +155,7 @@ def run(res, tier, seed):
     })
     # property monitor: the specification itself evaluated against the implementation's answers
     mon = monitor(cases, impl)
-    res.obligation("monitor: implementation answers = specification (aligned sub-range arithmetic) on all %d ops" % nops,
+    res.obligation("monitor: implementation answers = specification (aligned sub-range arithmetic) on all %d ops (K1 domain excepted)" % nops,
                    not [m for m in mon if not classify(m)])
     have = {(m["case"], m["step"]) for m in mism}
     mism = mism + [m for m in mon if (m["case"], m["step"]) not in have]
